@@ -297,7 +297,7 @@ def run_roundtrip(case):
         arr = np.frombuffer(pay, dtype={1: 'u1', 2: 'u2', 4: 'u4', 8: 'u8'}.get(isz, f'V{isz}'))
         try:
             stream = b''.join(bytes(x) for x in BloscCompressor().compress(memoryview(arr), compression_block_size=case['cbs']))
-        except (ValueError, TypeError) as e:
+        except (ValueError, TypeError, AssertionError) as e:
             if isz > 255:
                 refused += 1        # the codec's typesize limit: an error is an acceptable answer, silent truncation is not
                 continue
